@@ -227,4 +227,14 @@ def Assoc.down (s : Assoc) (ip : Bytes) (port : Nat) (payload : Bytes) : Assoc Ã
     let h := headerOf ip port
     ({ s with headers := setHeader s.headers k h }, h ++ payload)
 
+/-- the reply direction of `runUDPAssociateLoop` since "fix: UDP associate drops a reply that does not fit a tunnel
+    packet instead of stopping the reply direction": the header is looked up (or built and remembered) first; a
+    reply whose header ++ payload exceeds the 65535 bytes one tunnel frame carries is DROPPED â€” nothing is written,
+    the loop goes on (`none`); everything else is written as one datagram. (Before the repair the oversize reply
+    made `conn.Write` fail and the goroutine return: every later reply of every host was lost while the
+    association kept relaying upstream.) -/
+def Assoc.downChecked (s : Assoc) (ip : Bytes) (port : Nat) (payload : Bytes) : Assoc Ã— Option Bytes :=
+  let r := s.down ip port payload
+  if r.2.length > 65535 then (r.1, none) else (r.1, some r.2)
+
 end Mieru.SocksMsg
